@@ -101,6 +101,7 @@ def main():
                                                             if ck.cov["evaluations"] % 23 == 0 else None))
     if m:
         ck.cov["oracle_queries"] = m.queries
+        ck.cov["model_runs_skipped"] = m.skipped
         m.close()
     impl.cleanup()
     ck.cov["traces_validated_against_impl"] = hist["model_runs"]
